@@ -6,7 +6,7 @@ on tiny generated instances, compared with an exhaustive reference search
 import logging
 import random
 
-from .. import brute
+from .. import common, brute
 from ..common import seed_int, case_hash
 
 
@@ -168,7 +168,12 @@ class GoodputCheck:
                 viol.append({"kind": kind, "detail": f"{detail}; instance={inst_view(inst)}", "case": case,
                              "case_id": f"{spec['shard']}/{idx}", "facts": {"planner": planner, "rtg": inst["rtg"]}})
             try:
-                pls = list(pol.schedule(EventTime(now, US), workload, pools))
+                with common.wall_guard(180):
+                    pls = list(pol.schedule(EventTime(now, US), workload, pools))
+            except common.SolverAborted:
+                bump("tooling_limit")  # a solve that does not return: wall-clock is never a verdict
+                bump("solver_calls_cut_short")
+                continue
             except Exception as e:
                 if (type(e).__name__ == "GurobiError" and "size-limited" in str(e)) or type(e).__name__ == "DOcplexLimitsExceeded":
                     bump("tooling_limit")
